@@ -274,7 +274,10 @@ def _ext_objects(ext):
                      {"request_no_context_takeover": True}),
                     ("w9", CM.PerMessageDeflateOffer(request_max_window_bits=9), {"request_max_window_bits": 9}),
                     ("mem1", CM.PerMessageDeflateOffer(), {"mem_level": 1}),
-                    ("mem9", CM.PerMessageDeflateOffer(), {"mem_level": 9})]
+                    ("mem9", CM.PerMessageDeflateOffer(), {"mem_level": 9}),
+                    # a per-message decompression limit above every message of the sequences (except
+                    # 'big'): the limit is per message, a sequence of messages must pass
+                    ("cap1100", CM.PerMessageDeflateOffer(), {"max_message_size": 1100})]
         return [(n, o, (lambda offers, _k=k: next((CM.PerMessageDeflateOfferAccept(x, **_k) for x in offers
                                                    if isinstance(x, CM.PerMessageDeflateOffer)), None)),
                  (lambda r: CM.PerMessageDeflateResponseAccept(r) if isinstance(r, CM.PerMessageDeflateResponse) else None))
@@ -321,6 +324,8 @@ def _job_transfer(a, env):
                 for seq in use:
                     if fragsize == 1 and any(k == "big" for k in seq):
                         continue
+                    if vname == "cap1100" and (role != "client" or any(k == "big" for k in seq)):
+                        continue   # the cap is configured on the server's receive side
                     pair = ws.Pair(copts={"perMessageCompressionOffers": [offer],
                                           "perMessageCompressionAccept": c_accept},
                                    sopts={"perMessageCompressionAccept": s_accept})
